@@ -3,7 +3,7 @@
 # Confirms a seeded change produced by a sub-agent in /tmp/seed-<PROP>, copies it to
 # /verif/seeded/<PROP>/, runs the registered checks against it on /repo, undoes, removes worktree.
 set -u
-P=$1; CHECKS=${2:-$P}; WT=/tmp/seed-$P; OUT=/verif/seeded/$P
+P=$1; CHECKS=${2:-$P}; WT=/tmp/seed-$P; OUT=${SEED_OUT:-/verif/seeded/$P}
 export CARGO_NET_OFFLINE=true
 log() { echo "[seed $P] $*"; }
 [ -f $WT/seed_out/patch.diff ] || { log "no patch.diff"; exit 2; }
